@@ -61,6 +61,7 @@ func (s scenario) program() rt.Program {
 		afterClose := make([]bool, s.N)
 		var joined col.QueueLike[int]
 		mainDone := false
+		helpersAliveAtWait := 0
 		var threads []rt.ThreadSpec
 		threads = append(threads, rt.ThreadSpec{Name: "main", Body: func() {
 			switch s.Fn {
@@ -75,6 +76,7 @@ func (s scenario) program() rt.Program {
 			}
 			ready.Done()
 			wg.Wait()
+			helpersAliveAtWait = rt.LiveLibraryThreads()
 			mainDone = true
 		}})
 		threads = append(threads, rt.ThreadSpec{Name: "feeder", Body: func() {
@@ -123,6 +125,9 @@ func (s scenario) program() rt.Program {
 			}
 			if !mainDone {
 				add("the caller's wait group never returns to zero", s.String())
+			}
+			if helpersAliveAtWait > 0 {
+				add("the caller's wait group returns while a helper goroutine has not finished", fmt.Sprintf("%s: %d helper goroutines still running when Wait() returned", s, helpersAliveAtWait))
 			}
 			var input []int
 			for i := 1; i <= s.L; i++ {
